@@ -124,7 +124,7 @@ def compare_lines(impl, model, mask, tol=None, value_eq=False):
             continue
         if a.startswith("PANIC:") and b.startswith("PANIC:"):
             continue      # both panic: WHICH assertion / message fired is not part of any property (a reworded assert is harmless)
-        if a == "?" or a == "?,?":
+        if a in ("?", "?,?") or b in ("?", "?,?"):
             continue      # the harness could not observe this private value (changed Debug output and no behavioural probe): not compared
         fa, fb = fields(a), fields(b)
         if len(fa) != len(fb) or [c for c, _ in fa] != [c for c, _ in fb]:
